@@ -1079,3 +1079,8 @@ mutant("c11-est-regular-flag", "C11", "R11.e", EST,
        "        ) and all(\n            len(machine_ops) == len(operations_by_machine[0])\n            for machine_ops in operations_by_machine\n        )\n",
        "        )\n",
        "the original defect D13: rectangularity flag on job lengths only")
+rename("c02-r-rename-tracking", "C02", [
+    (DISP, "_machine_next_available_time", "_machine_free_at"), (DISP, "_job_next_operation_index", "_job_cursor"),
+    (DISP, "_job_next_available_time", "_job_free_at"), (DISP, "_update_tracking_attributes", "_advance_tracking"),
+    (DISP, "_cache", "_memo"), (DISP, "_dispatcher_cache", "_memoised"),
+])
